@@ -373,6 +373,43 @@ def run(P, tier="quick"):
     else:
         R.violated(Finding("R27", PROPS, SAVE, "vnacal_save", "version-line", "version line %r written by vnacal_save is not "
                            "accepted by the loader's formats %s / version gate" % (wrote, fmts), fsave.line))
+    # --- pre-release (major version 0) files only carry the legacy "e" matrix: whatever `type` the file names,
+    #     parse_set must continue with VNACAL_E12 or reject the set (parse_matrices has no legacy path otherwise)
+    from ..miniexec import MiniExec, Frame, UNKNOWN
+    ps = P.need_func("parse_set", LOAD)
+    vif = None
+    for n in ps.walk():
+        if n.k == "IfStmt":
+            c0 = [x for x in n.kids if x is not None][0].strip()
+            if c0.k == "BinaryOperator" and c0.op == "==" and c0.kids[0].strip().k == "MemberExpr" and \
+                    c0.kids[0].strip().member == "vls_major_version" and c0.kids[1].strip().cv == 0:
+                vif = n
+    if vif is None:
+        R.violated(Finding("R27", set(PROPS) | {"C09"}, LOAD, "parse_set", "legacy-type", "no handling of major version 0 found in "
+                           "parse_set", ps.line))
+    else:
+        e12 = types.get("VNACAL_E12")
+        for tname, tv in sorted(list(types.items()) + [("<type not given>", -1)], key=lambda kv: kv[1]):
+            if tname.startswith("_") or tname == "VNACAL_NOTYPE":
+                continue
+            ex = MiniExec(on_call=lambda c, fr, ex_: 0)
+            fr = Frame({"type": tv}, {"vls_major_version": 0})
+            frames = ex.exec(vif, [fr])
+            verdicts = set()
+            for g in frames:
+                if g.flow == "return":
+                    verdicts.add("rejected")
+                else:
+                    t = g.env.get("type", UNKNOWN)
+                    verdicts.add("E12" if t == e12 else "type=%s" % (t if t is not UNKNOWN else "?"))
+            key = "R27|legacy-version|%s" % tname
+            if verdicts <= {"rejected", "E12"}:
+                R.ok(key, set(PROPS) | {"C09"})
+            else:
+                R.violated(Finding("R27", set(PROPS) | {"C09"}, LOAD, "parse_set", "legacy-type:" + tname,
+                                   "a pre-release (#VNACAL 2.x) file naming type %s continues with %s: only the legacy \"e\" matrix "
+                                   "is required for such files, so parse_matrices then reads matrices that were never found" %
+                                   (tname, sorted(verdicts)), vif.line))
     R.check_floor()
     return R
 
